@@ -19,6 +19,7 @@ mod jsonmut;
 mod fmt;
 mod fieldspec;
 mod fields;
+mod c04;
 
 use std::collections::HashMap;
 
@@ -70,6 +71,7 @@ fn main() {
         "c14" => c14::run(&o),
         "c09" => c01::run_c09(&o),
         "fields" => fields::run(&o),
+        "c04" => c04::run(&o),
         other => {
             eprintln!("unknown stream {other}");
             std::process::exit(2);
